@@ -456,6 +456,161 @@ func describe(ref map[string]*sRef, under []string, q string, prefix bool) strin
 	return "{" + strings.Join(p, ", ") + "}"
 }
 
+// runAliasStability (clause C15.bytes at the ndn.Store API): what Get returned stays what it was
+// while the store goes on being written to. Every Put/Remove history of depth <= 3 over the quick
+// universe is executed on a fresh MemoryStore and on a BoltStore on a NEW database file (bbolt's
+// page allocation depends on the history of the file; a fresh file gives every history one layout,
+// here and in the replay), with wires of two sizes: a few bytes (bbolt keeps the bucket inline in
+// its parent's page) and 700 bytes (real leaf pages from the second packet on). After every
+// operation each stored packet is read by exact name and the newest under the root by prefix; the
+// returned slice is kept next to a private copy. At the end four more write transactions (2x:
+// Remove(/, prefix), Put of every packet of the universe with other bytes) take every page or
+// buffer released meanwhile into use again, and every kept slice is compared with its copy (a
+// memory fault while reading one counts as a difference).
+func runAliasStability(rep *report.Reporter, deadline time.Time) map[string]any {
+	u := mkUniverse(false)
+	nops := int64(len(u.ops))
+	const depth = 3
+	var offs []int64
+	total, pow := int64(0), int64(1)
+	for d := 1; d <= depth; d++ {
+		pow *= nops
+		offs = append(offs, total)
+		total += pow
+	}
+	sizes := []int{0, 700}
+	var held, hists, opened, skipped int64
+	var slot int64
+	var smp report.Samples
+	smp.N = 2
+	paths := sync.Pool{New: func() any {
+		return filepath.Join(boltDir(), fmt.Sprintf("a%d-%d.db", os.Getpid(), atomic.AddInt64(&slot, 1)))
+	}}
+	eval := func(i int64) {
+		size := sizes[i%int64(len(sizes))]
+		i /= int64(len(sizes))
+		if size == 0 && i >= offs[depth-1] {
+			atomic.AddInt64(&skipped, 1)
+			return
+		}
+		d := 0
+		for d+1 < len(offs) && i >= offs[d+1] {
+			d++
+		}
+		i -= offs[d]
+		hist := make([]int, d+1)
+		for k := d; k >= 0; k-- {
+			hist[k] = int(i % nops)
+			i /= nops
+		}
+		path := paths.Get().(string)
+		defer paths.Put(path)
+		os.Remove(path)
+		b, err := object.NewBoltStore(path)
+		if err != nil {
+			report.Fatal("bolt: %v", err)
+		}
+		object.VerifBoltNoSync(b)
+		atomic.AddInt64(&opened, 1)
+		n := aliasHistory(rep.Add, u, hist, size, object.NewMemoryStore(), b)
+		b.Close()
+		os.Remove(path)
+		atomic.AddInt64(&held, int64(n))
+		atomic.AddInt64(&hists, 1)
+		if d == depth-1 && n >= 6 {
+			var l []string
+			for _, oi := range hist {
+				l = append(l, u.ops[oi].label)
+			}
+			smp.Offer(fmt.Sprintf("alias stability (wire size +%d) %s: %d slices kept and re-compared", size, strings.Join(l, " ; "), n))
+		}
+	}
+	// (the index space interleaves the two sizes; the small size stops one level earlier: with a
+	// handful of bytes per packet the third operation adds nothing the 700-byte run does not have)
+	done, complete := enum.Range(total*int64(len(sizes)), deadline, eval)
+	return map[string]any{"operations": len(u.ops), "max_depth": depth, "wire_sizes_added": sizes, "histories_total": total*int64(len(sizes)) - atomic.LoadInt64(&skipped), "histories_done": done - atomic.LoadInt64(&skipped), "max_depth_small_wires": depth - 1,
+		"exhaustive": complete, "fresh_bolt_files": atomic.LoadInt64(&opened), "slices_kept_and_recompared": atomic.LoadInt64(&held),
+		"transactions_after_the_history": 4, "samples": smp.List()}
+}
+
+// aliasHistory runs one history of the alias-stability pass; returns the number of slices kept.
+func aliasHistory(add func(report.Violation), u *sUniverse, hist []int, size int, mem ndn.Store, bolt ndn.Store) int {
+	type kept struct {
+		store, what string
+		alias, copy []byte
+	}
+	var keep []kept
+	stores := []struct {
+		n string
+		s ndn.Store
+	}{{"mem", mem}, {"bolt", bolt}}
+	stored := map[string]enc.Name{}
+	var labels []string
+	pad := func(tag string, k int) []byte {
+		w := append([]byte(tag), byte('#'), byte('0'+k))
+		for i := 0; i < size; i++ {
+			w = append(w, byte(i*7+k))
+		}
+		return w
+	}
+	for k, oi := range hist {
+		op := u.ops[oi]
+		labels = append(labels, op.label)
+		for _, s := range stores {
+			if op.put != nil {
+				s.s.Put(op.put.name, op.put.ver, pad(op.put.s, k)) // errors are the business of the differential pass
+			} else {
+				s.s.Remove(op.rem, op.prefix)
+			}
+		}
+		if op.put != nil {
+			stored[op.put.s] = op.put.name
+		} else {
+			for ks, n := range stored {
+				if n.Equal(op.rem) || (op.prefix && op.rem.IsPrefix(n)) {
+					delete(stored, ks)
+				}
+			}
+		}
+		for _, s := range stores {
+			for ks, n := range stored {
+				if w, err := s.s.Get(n, false); err == nil && w != nil {
+					keep = append(keep, kept{s.n, fmt.Sprintf("Get(%s) after operation %d", ks, k+1), w, append([]byte(nil), w...)})
+				}
+			}
+			if w, err := s.s.Get(enc.Name{}, true); err == nil && w != nil {
+				keep = append(keep, kept{s.n, fmt.Sprintf("Get(/, prefix) after operation %d", k+1), w, append([]byte(nil), w...)})
+			}
+		}
+	}
+	for round := 0; round < 2; round++ {
+		for _, s := range stores {
+			s.s.Remove(enc.Name{}, true)
+			s.s.Begin()
+			for _, p := range u.pkts {
+				s.s.Put(p.name, p.ver, pad("churn:"+p.s, 5+round))
+			}
+			s.s.Commit()
+		}
+	}
+	for _, kp := range keep {
+		eq, fault := safeEqual(kp.alias, kp.copy)
+		if eq {
+			continue
+		}
+		how := "differs from what was returned"
+		if fault != nil {
+			how = fmt.Sprintf("can no longer be read (%v)", fault)
+		}
+		add(report.Violation{Clause: "C15.bytes", Key: kp.store + ": bytes the store handed out do not stay intact when the store is written to afterwards",
+			Detail: fmt.Sprintf("store history (wires of %d+%d bytes) %s :: the slice returned by %s.%s (%d bytes) %s after the rest of the history and four more transactions (2x: Remove(/, prefix), Put of %d packets)",
+				len(u.pkts[0].s)+2, size, strings.Join(labels, " ; "), kp.store, kp.what, len(kp.copy), how, len(u.pkts)),
+			Replay: map[string]any{"alias_history": labels, "wire_size_added": size}})
+		break
+	}
+	return len(keep)
+}
+
 // runBigRemove: removal by prefix of an object with about a thousand packets (store code has scan
 // bounds at 1000 keys). The real Client.Produce writes an object of N segments (+ metadata) into a
 // MemoryStore and a BoltStore (scaled build: N segments are 4*N bytes); Remove(<object>/<version>,
